@@ -348,7 +348,16 @@ def run(prog: Program, res: Result) -> None:  # noqa: PLR0912, PLR0915
     from checks.shared import check_content_right_trim
 
     check_content_right_trim(prog, res, "C01.R10")
+    from checks.shared import check_parser_trim_threading
 
+    check_parser_trim_threading(prog, res, "C01.R10")
+
+    res.rule("C01.R13", "the Liquid string form of a value does not depend on where it is printed: every definition of to_liquid_string (the one used by output statements and filters, and the private copy used for `${…}` interpolation in template strings) is the same function after normalisation")
+    _stringifier_twins_rule(prog, res)
+    res.rule("C01.R11", "a filter that searches with str.partition / str.rpartition reads 'found' from the separator slot, never from the head (rpartition) or tail (partition), which is also empty when the occurrence touches that end of the string")
+    _partition_presence_rule(prog, res)
+    res.rule("C01.R12", "the truncation filters (truncate, truncatewords and their helpers) agree on what fits: the input is returned when its measured length is <= the limit")
+    _fits_rule(prog, res)
     # ------------------------------------------------------------------ R9 slice bounds computed by subtraction
     res.rule("C01.R9", "a slice bound computed by subtracting run-time quantities (`x[: n - k]`) is clamped at zero or its sign is decided by a dominating comparison: Python reads a negative bound as 'from the end', which no Liquid filter means (`truncate: 2` with the three-character ellipsis must cut to nothing, not to all but the last character)")
     _slice_bound_rule(prog, res)
@@ -423,3 +432,114 @@ def _slice_bound_rule(prog: Program, res: Result) -> None:
                 res.fail("C01.R9", file=fi.file, line=sub.lineno, qualname=fi.qualname, construct=f"{fi.qualname}: slice bound `{norm(bound)}` may be negative", message=f"{fi.qualname} slices with the bound `{norm(bound)}`, a difference that is negative whenever `{norm(bound.right)}` exceeds `{norm(bound.left)}`: Python then counts from the end of the text (`'abcdefgh'[:2 - 3]` is 'abcdefg'), so the filter returns more text, not less", what=what)
     res.ok("C01.R9", "liquid2/**", f"{n_fn} functions scanned, {n_sites} slice bound(s) computed by subtraction", "every such bound is clamped with max(…, 0) (then it is not a bare subtraction), guarded, or cursor arithmetic")
     res.floor("C01.R9", "functions scanned for subtracted slice bounds", n_fn, 900)
+
+
+def _partition_presence_rule(prog: Program, res: Result) -> None:
+    """`head, sep, tail = s.rpartition(x)`: whether x occurs is told by `sep`; `head` is also empty when x starts the string."""
+    n = 0
+    probe = ast.parse("def f(val, arg):\n    before, _, after = val.rpartition(arg)\n    if before:\n        return before + after\n    return val\n").body[0]
+
+    def findings(fn: ast.AST) -> list[tuple[ast.If, str, str]]:
+        out = []
+        for a in ast.walk(fn):
+            if isinstance(a, ast.Assign) and isinstance(a.value, ast.Call) and isinstance(a.value.func, ast.Attribute) and a.value.func.attr in ("partition", "rpartition") and len(a.targets) == 1 and isinstance(a.targets[0], ast.Tuple) and len(a.targets[0].elts) == 3:
+                head, _sep, tail = a.targets[0].elts
+                ambiguous = head if a.value.func.attr == "rpartition" else tail
+                if not isinstance(ambiguous, ast.Name):
+                    continue
+                recv = a.value.func.value
+                if not isinstance(recv, ast.Name):
+                    continue
+                # "not found" is the reading when the branch taken for an empty part hands back the searched text itself, unchanged
+                stmts = [st for b in ast.walk(fn) for fld in ("body", "orelse") for st in [getattr(b, fld, None)] if isinstance(st, list)]
+                for i in ast.walk(fn):
+                    if not isinstance(i, ast.If):
+                        continue
+                    neg = isinstance(i.test, ast.UnaryOp) and isinstance(i.test.op, ast.Not)
+                    t = i.test.operand if neg else i.test
+                    if not (isinstance(t, ast.Name) and t.id == ambiguous.id):
+                        continue
+                    if neg:
+                        empty_branch = list(i.body)
+                    else:
+                        empty_branch = list(i.orelse)
+                        if not empty_branch:
+                            for blk in stmts:
+                                if i in blk:
+                                    empty_branch = blk[blk.index(i) + 1 :]
+                    if any(isinstance(r, ast.Return) and isinstance(r.value, ast.Name) and r.value.id == recv.id for r in empty_branch):
+                        out.append((i, a.value.func.attr, ambiguous.id))
+        return out
+
+    if len(findings(probe)) != 1:
+        raise AnalysisError("C01.R11 matcher self-check failed")
+    sites = 0
+    for fi in sorted(prog.all_functions(), key=lambda f: (f.file, f.node.lineno)):
+        n += 1
+        uses = [c for c in ast.walk(fi.node) if isinstance(c, ast.Call) and isinstance(c.func, ast.Attribute) and c.func.attr in ("partition", "rpartition") and prog.enclosing_function(fi.module, c) is fi]
+        if not uses:
+            continue
+        sites += len(uses)
+        bad = [b for b in findings(fi.node) if prog.enclosing_function(fi.module, b[0]) is fi]
+        if bad:
+            i, kind, nm = bad[0]
+            res.fail("C01.R11", file=fi.file, line=i.lineno, qualname=fi.qualname, construct=f"{fi.qualname}: occurrence decided from the {'head' if kind == 'rpartition' else 'tail'} of {kind}()", message=f"{fi.qualname} decides whether the text was found from `{nm}`, the {'head' if kind == 'rpartition' else 'tail'} of `{kind}()`: that part is also empty when the occurrence is at the very {'start' if kind == 'rpartition' else 'end'} of the string, so the filter leaves such input unchanged (`'abc' | remove_last: 'abc'` stays 'abc')", what=f"{fi.qualname}: found/not found is read from the separator slot of {kind}()")
+        else:
+            res.ok("C01.R11", f"{fi.file}:{uses[0].lineno} {fi.qualname}", f"{fi.qualname}: found/not found is read from the separator slot of {uses[0].func.attr}()", "no test of the ambiguous part")
+    res.floor("C01.R11", "functions scanned for partition-based searches", n, 900)
+    res.floor("C01.R11", "partition/rpartition call sites", sites, 2)
+
+
+def _fits_rule(prog: Program, res: Result) -> None:
+    """A truncation filter returns its input when it fits: measured length <= limit (a text of exactly the limit is not cut)."""
+    n = 0
+    for fi in sorted(prog.all_functions(), key=lambda f: (f.file, f.node.lineno)):
+        if "truncate" not in fi.name or fi.cls is not None:
+            continue
+        params = set(fi.params())
+        for i in ast.walk(fi.node):
+            if not (isinstance(i, ast.If) and isinstance(i.test, ast.Compare) and len(i.test.ops) == 1 and any(isinstance(b, ast.Return) for b in i.body)):
+                continue
+            l, r, op = i.test.left, i.test.comparators[0], i.test.ops[0]
+            if not (isinstance(r, ast.Name) and r.id in params and ("len" in norm(l) or "length" in norm(l))):
+                continue
+            n += 1
+            site = f"{fi.file}:{i.lineno} {fi.qualname}"
+            what = f"{fi.qualname}: `{norm(i.test)}` lets a text of exactly the limit through"
+            if isinstance(op, ast.LtE):
+                res.ok("C01.R12", site, what, "<=")
+            elif isinstance(op, ast.Lt):
+                res.fail("C01.R12", file=fi.file, line=i.lineno, qualname=fi.qualname, construct=f"{fi.qualname}: strict `<` in the fits test", message=f"{fi.qualname} returns its input only when `{norm(i.test)}`: a text of exactly the limit is truncated and gets the ellipsis although it fits (`'a b c' | truncatewords: 3` becomes 'a b c...')", what=what)
+    res.floor("C01.R12", "fits tests of truncation filters", n, 2)
+
+
+def _stringifier_twins_rule(prog: Program, res: Result) -> None:
+    """The Liquid string form of a value is defined twice (stringify.to_liquid_string for output statements and filters, the private
+    copy in builtin/expressions.py for `${…}` interpolation): the two agree statement for statement."""
+    import copy
+
+    from sa import twins as TW
+
+    fns = [f for f in prog.all_functions() if f.name in ("to_liquid_string", "_to_liquid_string") and f.cls is None]
+    res.floor("C01.R13", "definitions of the Liquid string form", len(fns), 2)
+    ref = next((f for f in fns if f.file == "liquid2/stringify.py"), fns[0])
+
+    def canon(f):  # noqa: ANN001, ANN202
+        t = copy.deepcopy(f.node)
+        for x in ast.walk(t):
+            if isinstance(x, ast.Name) and x.id in ("to_liquid_string", "_to_liquid_string"):
+                x.id = "to_liquid_string"
+        return TW.normalise(t)
+
+    a = canon(ref)
+    for f in fns:
+        if f is ref:
+            continue
+        diffs = TW.diff_functions(a, canon(f))
+        site = f"{f.file}:{f.node.lineno} {f.qualname}"
+        what = f"{f.file}::{f.qualname} is the same function as {ref.file}::{ref.qualname}"
+        if not diffs:
+            res.ok("C01.R13", site, what, "identical after normalisation")
+        else:
+            d = diffs[0]
+            res.fail("C01.R13", file=f.file, line=f.node.lineno, qualname=f.qualname, construct=f"{f.qualname} differs from {ref.qualname}", message=f"the two definitions of the Liquid string form disagree: {ref.file} does `{d.sync_text[:90]}`, {f.file} does `{d.async_text[:90]}` - a value prints differently inside a template string (`'n=${{x}}'`) than in an output statement (`{{{{ x }}}}`)", what=what)
